@@ -72,12 +72,13 @@ def _shard(job):
     st = Stats()
     f = est.estimator()
     A = est.arrs(n)
+    A2 = est.arrs2(n)
     R = rec_arrays(n)
     H = [refs.entropy(t) for t, _ in A]
     for i in range(lo, hi):
         ty, ay = A[i]
         for j in range(len(A)):
-            tx, ax = A[j]
+            tx, ax = A2[j]
             nontriv = H[i] > 0 and H[j] > 0
             for flag in (False, True):
                 if flag:
